@@ -26,7 +26,23 @@ def reset():
 
 
 def _bits(x: float) -> int:
-    return struct.unpack(">q", struct.pack(">d", float(x)))[0]
+    x = float(x)
+    if x != x:          # every NaN is one value here (its payload is not an observable of the property)
+        return 0x7FF8000000000000
+    return struct.unpack(">q", struct.pack(">d", x))[0]
+
+
+def _asc(s) -> str:
+    """printable-ASCII, injective rendering of a name (non-ASCII characters as \\u{hex}, backslash doubled)."""
+    out = []
+    for ch in str(s):
+        if ch == "\\":
+            out.append("\\\\")
+        elif 32 <= ord(ch) < 127:
+            out.append(ch)
+        else:
+            out.append("\\u{%x}" % ord(ch))
+    return "".join(out)
 
 
 def _h(x) -> int:
@@ -43,9 +59,16 @@ def c_arr(a) -> dict:
         v = [int(x) for x in flat]
     elif kind == "b":
         v = [int(bool(x)) for x in flat]
+    elif kind == "c":       # complex: (re, im) bit patterns
+        v = [b for x in flat.astype(np.complex128) for b in (_bits(x.real), _bits(x.imag))]
+    elif kind in "mM":      # datetime64 / timedelta64: the instant in ns (the unit is part of the dtype name)
+        try:
+            v = [int(x) for x in flat.astype(f"{'datetime64' if kind == 'M' else 'timedelta64'}[ns]").view(np.int64)]
+        except Exception:  # noqa: BLE001
+            v = [_h(x) for x in flat.tolist()]
     else:
         v = [_h(x) for x in flat.tolist()]
-    dt = a.dtype.name if kind in "fiub" else ("str" if kind in "UO" else a.dtype.name)
+    dt = a.dtype.name if kind in "fiubcmM" else ("str" if kind in "UO" else a.dtype.name)
     return {"dt": dt, "sh": [int(s) for s in a.shape], "v": v}
 
 
@@ -65,41 +88,91 @@ def c_scalar(v) -> dict:
     return {"dt": "repr", "sh": [], "v": [_h(v)]}
 
 
+def _attr_val(v):
+    """attribute value up to the container/scalar flavour (tuple = list = 1-D array; numpy scalar = Python scalar):
+    what an attribute SAYS, not which Python type carries it."""
+    if isinstance(v, np.ndarray):
+        v = v.tolist()
+    if isinstance(v, np.generic):
+        v = v.item()
+    if isinstance(v, (list, tuple)):
+        return "[" + ",".join(_attr_val(x) for x in v) + "]"
+    if isinstance(v, bool):
+        return "b:" + str(v)
+    if isinstance(v, int):
+        return "i:" + str(v)
+    if isinstance(v, float):
+        return "f:" + str(_bits(v))
+    if isinstance(v, str):
+        return "s:" + v
+    if v is None:
+        return "None"
+    if isinstance(v, dict):
+        return "{" + ",".join(f"{k}:{_attr_val(x)}" for k, x in sorted(v.items(), key=lambda kv: str(kv[0]))) + "}"
+    return "r:" + repr(v)
+
+
 def _attrs(attrs) -> list:
-    return [[f"attr:{k}={v!r}"[:80], EMPTY] for k, v in attrs.items()]
+    out = []
+    for k, v in attrs.items():
+        lab = _asc(f"attr:{k}={_attr_val(v)}")
+        if len(lab) > 120:
+            lab = lab[:100] + "..." + hashlib.sha1(lab.encode()).hexdigest()[:12]
+        out.append([lab, EMPTY])
+    return out
+
+
+def _dims(v) -> str:
+    return ",".join(map(str, v.dims))
 
 
 def c_dataset(ds) -> list:
+    """One group: every data variable and coordinate (name, dims IN ORDER, dtype, shape, values), every attribute of
+    the group, of its variables and of its coordinates.  Labels are ASCII-safe and injective on names."""
     it = []
     for n, v in ds.data_vars.items():
-        it.append([f"var:{n}|{','.join(map(str, v.dims))}", c_arr(v.values)])
-        it += [[f"var:{n}|" + lab, a] for lab, a in _attrs(v.attrs)]
+        it.append([_asc(f"var:{n}|{_dims(v)}"), c_arr(v.values)])
+        it += [[_asc(f"var:{n}|") + lab, a] for lab, a in _attrs(v.attrs)]
     for n, v in ds.coords.items():
-        it.append([f"coord:{n}|{','.join(map(str, v.dims))}", c_arr(v.values)])
+        it.append([_asc(f"coord:{n}|{_dims(v)}"), c_arr(v.values)])
+        it += [[_asc(f"coord:{n}|") + lab, a] for lab, a in _attrs(v.attrs)]
     it += _attrs(ds.attrs)
     return sorted(it, key=lambda x: x[0])
 
 
+def _walk(node, path):
+    """(path, own dataset) of a node and all its descendants, by walking `.children` (NOT through DataTree.to_dict):
+    the own dataset excludes what is inherited from the parent."""
+    yield path, node.to_dataset(inherit=False)
+    for name, child in node.children.items():
+        yield from _walk(child, (path if path != "/" else "") + "/" + str(name))
+
+
 def c_tree(tree) -> dict | None:
-    """xr.DataTree -> keyed (path -> dataset items); the empty tree is None."""
-    m = sorted(([str(p), c_dataset(ds)] for p, ds in tree.to_dict().items()), key=lambda x: x[0])
-    # groups without any content other than the root are structure implied by their descendants' paths
-    m = [[p, it] for p, it in m if it or p == "/"]
-    if all(not it for _, it in m):
+    """xr.DataTree -> keyed (path -> dataset items).  EVERY group is an entry, also one that carries nothing (the
+    group structure is an observable); a tree that is only an empty root is None (= not initialised)."""
+    m = sorted(([_asc(p), c_dataset(ds)] for p, ds in _walk(tree, "/")), key=lambda x: x[0])
+    if len(m) == 1 and not m[0][1]:
         return None
     return {"k": "keyed", "m": m}
 
 
+def c_nested(tree) -> dict:
+    """the tree as a NESTED value: {"items": own dataset items, "children": [[name, nested], ...]} (sorted by name)."""
+    return {"items": c_dataset(tree.to_dataset(inherit=False)),
+            "children": sorted(([_asc(n), c_nested(c)] for n, c in tree.children.items()), key=lambda x: x[0])}
+
+
 def c_dataarray(da) -> dict:
     """3-D photon: the five top-level entries of a DataArray (dims, data, coords, attrs, name)."""
-    coords = sorted(([f"{n}|{','.join(map(str, c.dims))}", c_arr(c.values)] for n, c in da.coords.items()),
+    coords = sorted(([_asc(f"{n}|{','.join(map(str, c.dims))}"), c_arr(c.values)] for n, c in da.coords.items()),
                     key=lambda x: x[0])
     m = [
         ["attrs", sorted(_attrs(da.attrs), key=lambda x: x[0])],
         ["coords", coords],
         ["data", [["", c_arr(da.values)]]],
-        ["dims", [[",".join(map(str, da.dims)), EMPTY]]],
-        ["name", [[str(da.name), EMPTY]]],
+        ["dims", [[_asc(",".join(map(str, da.dims))), EMPTY]]],
+        ["name", [[_asc(str(da.name)), EMPTY]]],
     ]
     return {"k": "keyed", "m": m}
 
@@ -167,3 +240,11 @@ def record_canon(detector, tag=None):
     """Model function: record what a model at this pipeline position sees."""
     TRACE.append(dict(tag=tag, name=detector.current_running_model_name, step=int(detector.pipeline_count),
                       canon=canon_detector(detector)))
+
+
+def fill_from_spec(detector, init=None):
+    """Model function: initialise containers of the running detector from a plain spec (the same builder the driver
+    uses outside pipelines), so that a later save_detector / load_detector meets a detector that is not empty."""
+    from harness.drivers.c18 import fill
+
+    fill(detector, init or {}, detector.geometry.row, detector.geometry.col)
